@@ -216,7 +216,7 @@ def verify_function(c, mutate=None, canary=False):
         kw = {k: api.mk(t, "init." + k, st.pc) for k, t in argtypes.items()}
         for k, v in kw.items():
             st.env["init_" + k] = v
-        st.env["self"] = construct(X, cls, [], kw, st, fnode, False)
+        st.env["self"] = construct(X, cls, [], kw, st, fnode, False, real_init=True)
         if cx.pending:
             for cond, exc in cx.pending:
                 st.pc.append(z3.Not(cond))
